@@ -112,6 +112,101 @@ theorem pop_progs {lt : (π × Prog) → (π × Prog) → Bool} {h h' : List (π
   have := (Heapq.pop_perm lt h e h' hp).map (·.2)
   simpa using this
 
+/-- the state after a pop that is recorded as the successor of `key` -/
+def St.popTake (s : St S T π) (nt : NT S T) (key : Option Prog) (e : π × Prog) (h' : List (π × Prog)) : St S T π :=
+  ((s.setHeap nt h').setSucc nt key e.2).setPred nt e.2 key
+
+theorem popTake_heapProgs (s : St S T π) (nt : NT S T) (key : Option Prog) (e : π × Prog) (h' : List (π × Prog)) :
+    ∀ nt', (s.popTake nt key e h').heapProgs nt' = if nt' = nt then h'.map (·.2) else s.heapProgs nt' := by
+  intro nt'
+  show ((s.setHeap nt h').heapOf nt').map (·.2) = _
+  rw [St.heapOf_setHeap]
+  split <;> rfl
+
+theorem popTake_succOf (s : St S T π) (nt : NT S T) (key : Option Prog) (e : π × Prog) (h' : List (π × Prog)) :
+    ∀ nt', (s.popTake nt key e h').succOf nt' =
+      if nt' = nt then AList.insert key e.2 (s.succOf nt) else s.succOf nt' := by
+  intro nt'
+  show ((s.setHeap nt h').setSucc nt key e.2).succOf nt' = _
+  rw [St.succOf_setSucc]; rfl
+
+theorem NInv.popTake {lt : (π × Prog) → (π × Prog) → Bool} {s : St S T π} (hi : NInv s) (nt : NT S T)
+    (key : Option Prog) (e : π × Prog) (h' : List (π × Prog))
+    (h : Heapq.pop lt (s.heapOf nt) = some (e, h'))
+    (hkey : AList.lookup key (s.succOf nt) = none) :
+    NInv (s.popTake nt key e h') ∧ Stable s (s.popTake nt key e h') := by
+  have hperm := pop_progs h
+  have hnd : (e.2 :: h'.map (·.2)).Nodup := hperm.nodup_iff.mp (hi.heap_nodup nt)
+  have he_in : e.2 ∈ s.heapProgs nt := hperm.symm.subset (List.mem_cons_self)
+  have hsub : ∀ p, p ∈ h'.map (·.2) → p ∈ s.heapProgs nt :=
+    fun p hp => hperm.symm.subset (List.mem_cons_of_mem _ hp)
+  have hprogs := popTake_heapProgs s nt key e h'
+  have hsucc := popTake_succOf s nt key e h'
+  have hst : Stable s (s.popTake nt key e h') := by
+    intro nt' k v hk
+    rw [hsucc]
+    split
+    · rename_i heq; subst heq
+      rw [AList.lookup_insert]
+      split
+      · rename_i hkk; subst hkk; rw [hkey] at hk; cases hk
+      · exact hk
+    · exact hk
+  refine ⟨⟨?_, ?_, ?_, ?_, ?_, hi.no_deleted⟩, hst⟩
+  · intro nt'
+    rw [hprogs]
+    split
+    · exact (List.nodup_cons.mp hnd).2
+    · exact hi.heap_nodup nt'
+  · intro nt' p hp
+    rw [hprogs] at hp
+    show p ∈ s.seenOf nt'
+    split at hp
+    · rename_i heq; subst heq; exact hi.heap_seen _ p (hsub p hp)
+    · exact hi.heap_seen nt' p hp
+  · intro nt' k v hk
+    rw [hsucc] at hk
+    show v ∈ s.seenOf nt'
+    split at hk
+    · rename_i heq; subst heq
+      rw [AList.lookup_insert] at hk
+      split at hk
+      · cases hk; exact hi.heap_seen _ _ he_in
+      · exact hi.succ_seen _ k v hk
+    · exact hi.succ_seen nt' k v hk
+  · intro nt' k v hk hv
+    rw [hsucc] at hk
+    rw [hprogs] at hv
+    split at hk
+    · rename_i heq; subst heq
+      simp only [if_true] at hv
+      rw [AList.lookup_insert] at hk
+      split at hk
+      · cases hk; exact (List.nodup_cons.mp hnd).1 hv
+      · exact hi.succ_out _ k v hk (hsub v hv)
+    · rename_i hne
+      simp only [hne, if_false] at hv
+      exact hi.succ_out nt' k v hk hv
+  · intro nt' k k' v hk hk'
+    rw [hsucc] at hk hk'
+    split at hk
+    · rename_i heq; subst heq
+      simp only [if_true] at hk'
+      rw [AList.lookup_insert] at hk hk'
+      split at hk
+      · rename_i e1
+        cases hk
+        split at hk'
+        · rename_i e2; rw [e1, e2]
+        · exact absurd he_in (hi.succ_out _ k' _ hk')
+      · split at hk'
+        · cases hk'
+          exact absurd he_in (hi.succ_out _ k _ hk)
+        · exact hi.succ_inj _ k k' v hk hk'
+    · rename_i hne
+      simp only [hne, if_false] at hk'
+      exact hi.succ_inj nt' k k' v hk hk'
+
 theorem big_nodup (E : Env S T π) {c : Call S T} {s s' : St S T π} {r : Option Prog}
     (hb : Big E c s s' r) : NInv s → NPre c s → NInv s' ∧ Stable s s' ∧ NPost c s' r := by
   induction hb with
@@ -132,95 +227,14 @@ theorem big_nodup (E : Env S T π) {c : Call S T} {s s' : St S T π} {r : Option
     simp at hd
   | @pop_take s s' nt key e h' x h hd ha iha =>
     intro hi hpre
-    have hkey : AList.lookup key (s.succOf nt) = none := hpre
-    have hperm := pop_progs h
-    have hnd : (e.2 :: h'.map (·.2)).Nodup := hperm.nodup_iff.mp (hi.heap_nodup nt)
-    have he_in : e.2 ∈ s.heapProgs nt := hperm.symm.subset (List.mem_cons_self)
-    have hsub : ∀ p, p ∈ h'.map (·.2) → p ∈ s.heapProgs nt :=
-      fun p hp => hperm.symm.subset (List.mem_cons_of_mem _ hp)
-    -- the state after the pop and the two table updates
-    have hprogs : ∀ nt', (((s.setHeap nt h').setSucc nt key e.2).setPred nt e.2 key).heapProgs nt' =
-        if nt' = nt then h'.map (·.2) else s.heapProgs nt' := by
-      intro nt'
-      show ((s.setHeap nt h').heapOf nt').map (·.2) = _
-      rw [St.heapOf_setHeap]
-      split <;> rfl
-    have hsucc : ∀ nt', (((s.setHeap nt h').setSucc nt key e.2).setPred nt e.2 key).succOf nt' =
-        if nt' = nt then AList.insert key e.2 (s.succOf nt) else s.succOf nt' := by
-      intro nt'
-      show ((s.setHeap nt h').setSucc nt key e.2).succOf nt' = _
-      rw [St.succOf_setSucc]; rfl
-    have hst : Stable s (((s.setHeap nt h').setSucc nt key e.2).setPred nt e.2 key) := by
-      intro nt' k v hk
-      rw [hsucc]
-      split
-      · rename_i heq; subst heq
-        rw [AList.lookup_insert]
-        split
-        · rename_i hkk; subst hkk; rw [hkey] at hk; cases hk
-        · exact hk
-      · exact hk
-    have h1 : NInv (((s.setHeap nt h').setSucc nt key e.2).setPred nt e.2 key) := by
-      refine ⟨?_, ?_, ?_, ?_, ?_, hi.no_deleted⟩
-      · intro nt'
-        rw [hprogs]
-        split
-        · exact (List.nodup_cons.mp hnd).2
-        · exact hi.heap_nodup nt'
-      · intro nt' p hp
-        rw [hprogs] at hp
-        show p ∈ s.seenOf nt'
-        split at hp
-        · rename_i heq; subst heq; exact hi.heap_seen _ p (hsub p hp)
-        · exact hi.heap_seen nt' p hp
-      · intro nt' k v hk
-        rw [hsucc] at hk
-        show v ∈ s.seenOf nt'
-        split at hk
-        · rename_i heq; subst heq
-          rw [AList.lookup_insert] at hk
-          split at hk
-          · cases hk; exact hi.heap_seen _ _ he_in
-          · exact hi.succ_seen _ k v hk
-        · exact hi.succ_seen nt' k v hk
-      · intro nt' k v hk hv
-        rw [hsucc] at hk
-        rw [hprogs] at hv
-        split at hk
-        · rename_i heq; subst heq
-          simp only [if_true] at hv
-          rw [AList.lookup_insert] at hk
-          split at hk
-          · cases hk; exact (List.nodup_cons.mp hnd).1 hv
-          · exact hi.succ_out _ k v hk (hsub v hv)
-        · rename_i hne
-          simp only [hne, if_false] at hv
-          exact hi.succ_out nt' k v hk hv
-      · intro nt' k k' v hk hk'
-        rw [hsucc] at hk hk'
-        split at hk
-        · rename_i heq; subst heq
-          simp only [if_true] at hk'
-          rw [AList.lookup_insert] at hk hk'
-          split at hk
-          · rename_i e1
-            cases hk
-            split at hk'
-            · rename_i e2; rw [e1, e2]
-            · exact absurd he_in (hi.succ_out _ k' _ hk')
-          · split at hk'
-            · cases hk'
-              exact absurd he_in (hi.succ_out _ k _ hk)
-            · exact hi.succ_inj _ k k' v hk hk'
-        · rename_i hne
-          simp only [hne, if_false] at hk'
-          exact hi.succ_inj nt' k k' v hk hk'
+    obtain ⟨h1, hst⟩ := hi.popTake nt key e h' h hpre
     obtain ⟨a1, a2, _⟩ := iha h1 trivial
     refine ⟨a1, hst.trans a2, ?_⟩
     intro q hq
     cases hq
     apply a2
-    rw [hsucc]
+    show AList.lookup key ((s.popTake nt key e h').succOf nt) = some e.2
+    rw [popTake_succOf]
     simp only [if_true]
     exact AList.lookup_insert_self _ _ _
   | succ_leaf => intro hi _; exact ⟨hi, Stable.refl _, trivial⟩
